@@ -11,6 +11,18 @@ def plan(tier, ctx):
         for ao in aos:
             core = (n, ao) in ((10, 2), (7, 8))
             qs.append(P.stored_query("C06", n, ao, False, core=core, witness=core))
+    # (c) canonical code assignment / over-subscription, dynamic-header prefix
+    for nsym in ([2, 5, 19] if quick else list(range(1, 20))):
+        qs.append(P.setcodes_query(nsym, core=(nsym == 5), witness=(nsym == 5)))
+    qs.append(P.dynprefix_query())
+    # (b) fixed-Huffman block decoder unit (measured: n=1 ~115 s, n=2 ~265 s per cbmc run)
+    if quick:
+        fixed = [(1, 0), (1, 3), (2, 3)]
+    else:
+        fixed = [(n, ao) for n in (1, 2) for ao in (0, 1, 2, 3, 16)] + [(3, 3), (3, 0), (3, 16), (4, 3)]
+    for (n, ao) in fixed:
+        qs.append(P.fixed_query("C06", n, ao, False, core=False, witness=(not quick and (n, ao) == (2, 3)),
+                                timeout=(600 if quick else 2400), mem_gb=(None if quick else 24)))
     return Plan("C06", "model_checking", qs,
                 functions_encoded=["isal_inflate_stateless (driver loop, crc_flag=ISAL_DEFLATE)", "read_header",
                                    "decode_literal_block", "inflate_in_load", "inflate_in_read_bits"],
